@@ -1,6 +1,7 @@
 package vc
 
 import (
+	"golang.org/x/tools/go/ssa"
 	"fmt"
 	"go/types"
 	"sort"
@@ -94,6 +95,8 @@ type VC struct {
 	tableDone    bool
 	defs         map[string]string
 	lemmasUsed   map[string]bool
+	entryMeasure Term          // value of the function's `decreases` measure at entry
+	entryFn      *ssa.Function // the function being verified (for its recursive calls)
 	privateCells []privCell // cells of locals no callee can reach (kept across `modifies *`)
 	strProv      map[string]strProvenance // string constants created by string([]byte): their source bytes
 }
